@@ -1076,7 +1076,13 @@ struct Exec : public crab::cfg::statement_visitor<label_t, number_t, varname_t> 
   }
   void visit(int_to_ref_t &) override { m.outside("int_to_ref"); }
   void visit(ref_to_int_t &) override { m.outside("ref_to_int"); }
-  void visit(intrinsic_t &) override { m.outside("intrinsic"); }
+  void visit(intrinsic_t &s) override {
+    // the two partitioning directives of the value-partitioning domains have no
+    // concrete effect; every other intrinsic is outside the reference semantics
+    const std::string &n = s.get_intrinsic_name();
+    if (n != "value_partition_start" && n != "value_partition_end")
+      m.outside("intrinsic");
+  }
 
   // ---------------- calls
   void havoc_outputs(callsite_t &s) {
